@@ -130,6 +130,16 @@ def sec_arrays(sec, typ=None):
 
 
 IGNORE_KNOWN = set(k for k in os.environ.get("VERIF_C12_IGNORE_KNOWN", "").split(",") if k)
+# the defects this check models (gating of their triggers, taint of what they may have touched).  One that
+# known_findings.jsonl no longer lists as "known" - i.e. repaired in /repo - is treated exactly like one named in
+# VERIF_C12_IGNORE_KNOWN: its trigger is generated at full rate, nothing is tainted by it, a recurrence is a VIOLATION.
+MODELLED_KEYS = {"regop-int-ignored", "add-temperature-offset", "copyreg-global-stale", "regop-global-status-stale",
+                 "top-distribute-inactive-source", "regions-before-props"}
+try:
+    from vlib.runner import load_known as _lk
+    IGNORE_KNOWN |= MODELLED_KEYS - {e["key"] for e in _lk("C12") if e.get("status") == "known"}
+except Exception:
+    pass
 
 
 # --------------------------------------------------------------------------- reference interpreter
@@ -582,10 +592,12 @@ class Model:
         s, d = self._check_operate(dst, fn, src, cs)
         self._do_operate(dst, fn, s, d, cs, a, b)
 
-    def _region_common(self, dst, regname, r):
+    def _region_common(self, dst, regname, r, allow_self=False):
         if self.sec == "EDIT" and dst in EDIT_MULT:
             raise Invalid("EDIT multiplier arrays only take scalar operations here")
-        if regname == dst:
+        if regname == dst and not allow_self:
+            # (EQUALREG/ADDREG/MULTIREG on the selecting array itself are generated: the cells are selected first, then
+            # changed, and the next record - also of the same keyword - selects from the changed array)
             raise Invalid("region set is the target")
         if self.sec == "PROPS" and regname == "OPERNUM":
             self.props_used_opernum = True
@@ -595,7 +607,7 @@ class Model:
         self.check_target(name)
         regname = self.regname(setletter)
         cs, r = self.region_cells(regname, rid)
-        self._region_common(name, regname, r)
+        self._region_common(name, regname, r, allow_self=True)
         a = self.arr(name)
         if a.opaque:
             raise Invalid("array content not modelled")
@@ -1020,6 +1032,20 @@ class Gen:
                         recs.append(rec)
             elif kind == "REGOP":
                 kw = self.pick(["EQUALREG", "ADDREG", "MULTIREG", "COPYREG"])
+                # "coupled" keyword: every record selects by the same (region set, id) and one of the earlier records
+                # rewrites that region array itself, so that later records of the SAME keyword must see the new regions
+                csets = [k for k, arr in REGSETS.items() if arr in names and not gated(kw, arr)]
+                if kw != "COPYREG" and csets and self.chance(30):
+                    setl = self.pick(csets)
+                    rid = self.i(1, 3)
+                    others = [x for x in names if not gated(kw, x) and x != REGSETS[setl]]
+                    plan = ([self.pick(others)] if others and self.chance(50) else []) + [REGSETS[setl]] + \
+                           [self.pick(others) for _ in range(self.i(1, 2)) if others]
+                    for dst in plan:
+                        rec = {"kw": dst, "v": self.scalar_value(dst, kw), "reg": rid, "set": setl}
+                        if self.try_record(kw, rec, not recs):
+                            recs.append(rec)
+                    nrec = 0
                 for _ in range(nrec):
                     dst = target()
                     if gated(kw, dst) and not self.known_defects:
@@ -1228,6 +1254,13 @@ class C12(Check):
                         labels.append("global-storage-target")
                     if ARR[t]["typ"] == "i":
                         labels.append("int-target")
+                if k in REG_OPS and len(op.get("recs", [])) >= 2:
+                    rr = op["recs"]
+                    for i_, r_ in enumerate(rr[:-1]):
+                        if r_.get("set") in REGSETS and r_.get("kw") == REGSETS[r_["set"]] and \
+                                any(q.get("set") == r_["set"] and q.get("reg") == r_["reg"] for q in rr[i_ + 1:]):
+                            labels.append("regop-rewrites-own-region-set-midway")
+                            break
                 if k == "BOX":
                     inbox = op["box"] != full
                     shapes.append(tuple(op["box"]))
